@@ -115,9 +115,9 @@ def win_lattice(rng: random.Random, tier: str) -> list[bytes]:
     return out
 
 
-def mini_pe(nsec: int, trailing: int, rng: random.Random, order: str = "file", bss: bool = False, dos_fill: int = 0) -> bytes:
+def mini_pe(nsec: int, trailing: int, rng: random.Random, order: str = "file", bss: bool = False, dos_fill: int = 0,
+            e_lfanew: int = 0x80) -> bytes:
     """A structurally valid PE file: DOS header, PE signature, COFF header, optional header, section table, raw data."""
-    e_lfanew = 0x80
     dos = b"MZ" + bytes([dos_fill]) * 0x3A + struct.pack("<I", e_lfanew)       # (the DOS header fields are free-form for carving)
     dos += bytes(e_lfanew - len(dos))
     opt_size = 0xE0
@@ -199,6 +199,9 @@ def instances(rng: random.Random, tier: str) -> list[dict]:
         add("pe", mini_pe(nsec, 0, rng, order="reverse"), trailing=8)
         add("pe", mini_pe(nsec, 0, rng, bss=True), trailing=8)
         add("pe", mini_pe(nsec, 0, rng, order="reverse", bss=True), trailing=0)
+    # headers that do not fit in the first few hundred bytes: a long DOS stub, a long section table
+    for lfanew, nsec in ((0x40, 1), (0x100, 2), (0x300, 1), (0x3F0, 2), (0x400, 1), (0x1000, 2), (0x80, 17), (0x80, 24), (0x200, 40)):
+        add("pe", mini_pe(nsec, 0, rng, e_lfanew=lfanew), trailing=8)
     return out
 
 
